@@ -754,7 +754,11 @@ class HomeKitConnection:
 
         # FIXME: Should drop the connection if can't parse the event?
 
-        decoded = event.body.decode("utf-8")
+        try:
+            decoded = event.body.decode("utf-8")
+        except UnicodeDecodeError:
+            # Not JSON at all; ignore it like any other unparsable event
+            return
         if not decoded:
             return
 
